@@ -25,8 +25,10 @@ def main():
         if a == "--checks": checks = sys.argv[i+1].split(",")
         if a == "--tier": tier = sys.argv[i+1]
     src = f"/tmp/seed-out/{prop}"
-    if which in ("C", "D", "E", "F"):
+    if which in ("C", "D", "E"):
         src = f"/tmp/seed2-out/{prop}"
+    if which in ("F", "G"):  # round 6
+        src = f"/tmp/r6-out/{prop}"
     dst = f"/verif/seeded/{prop}-{which}"
     if not prop.startswith("C"):  # round 3: <area> X1|X2|X3, judged by all 19 checks
         src = f"/tmp/adv-out/{prop}"
